@@ -200,7 +200,11 @@ func TestFsAtomic(t *testing.T) {
 			for _, st := range steps {
 				for _, mode := range []string{"fail", "kill"} {
 					root.reset(oldBytes)
-					errno := map[string]string{"create": "EACCES", "write": "ENOSPC", "close": "EIO", "chmod": "EPERM", "rename": "EXDEV"}[st]
+					errno := Pick(r, map[string][]string{"create": {"EACCES", "ENOSPC"}, "write": {"ENOSPC", "EIO"}, "close": {"EIO"}, "chmod": {"EPERM", "EIO"},
+						"rename": {"EXDEV", "EBUSY", "EACCES"}}[st]...)
+					if round == 0 && st == "rename" {
+						errno = map[bool]string{true: "EBUSY", false: "EXDEV"}[withOld]
+					}
 					var inj, al string
 					if mode == "fail" {
 						inj = fmt.Sprintf("inject=%s:error=%s:when=%d", name[st], errno, idx[st])
